@@ -16,7 +16,7 @@ PROPS = {
                     'Field255 limb arithmetic = fiat-crypto (not verified here)'],
         'assumptions': [],
         'quick': {
-            'verus': [('fp_ops', 'unit', 32), ('fp_ops', 'unit', 64), ('fp_mul128', 'unit')],
+            'verus': [('fp_ops', 'unit', 32), ('fp_ops', 'unit', 64), ('fp_ops', 'unit', 128), ('fp_mul128', 'unit')],
             'kani': [{'files': KC + ['c09_field.rs']}],
         },
         'thorough': {},
@@ -104,9 +104,9 @@ PROPS = {
     },
     'C19': {
         'level': 'other',
-        'explanation': 'Decided (Verus): Prio2::new accepts exactly input lengths with 2*next_pow2(n+1) <= 2^20 and never overflows; proof_length(n) == n + 3 + next_pow2(n+1) (data | f0 g0 h0 | packed points); single-use aggregation parameter rule. Field arithmetic of FieldPrio2: C09. Not decided: acceptance of 0/1 vectors and rejection of others (polynomial identity / soundness), query-point exclusion (needs pow contract), codecs.',
+        'explanation': 'Decided (Verus): Prio2::new accepts exactly input lengths with 2*next_pow2(n+1) <= 2^20 and never overflows; proof_length(n) == n + 3 + next_pow2(n+1) (data | f0 g0 h0 | packed points); single-use aggregation parameter rule; choose_eval_at never returns one of the 2N interpolation nodes (r^(2*next_pow2(n+1)) != 1 for every PRNG stream), over the FP32::pow contract proved in fp_ops32 and the make_field! bodies of FieldPrio2::{pow, one, eq}. Field arithmetic of FieldPrio2: C09. Not decided: acceptance of 0/1 vectors and rejection of others (polynomial identity / soundness), codecs.',
         'trusted': [],
-        'quick': {'verus': [('vdaf_guards', 'unit'), ('fp_ops', 'unit', 32)], 'kani': []},
+        'quick': {'verus': [('vdaf_guards', 'unit'), ('prio2_eval', 'unit'), ('fp_ops', 'unit', 32)], 'kani': []},
         'thorough': {},
     },
     'C20': {
